@@ -9,6 +9,8 @@ var checks = map[string]*checkDef{
 			{workload: "C18A", variant: "instr", quick: 200000, thorough: 12000000},
 			{workload: "C18B", variant: "instr", quick: 20000, thorough: 1000000},
 			{workload: "C18C", variant: "instr-race", quick: 2000, thorough: 100000},
+			{workload: "C18C", variant: "instr-race-purego", quick: 800, thorough: 40000},
+			{workload: "C18C", variant: "instr-race-noavx2", quick: 800, thorough: 40000},
 			{workload: "C18D", variant: "instr-race", quick: 1600, thorough: 30000, cold: true},
 			{workload: "C18E", variant: "instrw", quick: 4000, thorough: 200000},
 			{workload: "C18E", variant: "instrw-race", quick: 800, thorough: 40000},
